@@ -47,6 +47,10 @@ def gen(tier, seed):
                 "the same when the network's units system (%s: the default state is generated in it) differs from the system's (%s: bare numbers passed to set_state are in it) (%s)" % (un, usy, kind),
                 "s: int, c: int", timeout=240, viol="a per-entry setter / getter does not convert between the system's units and the units the state is stored in")
     add("regen", "c13-regenerate", "regenerate_reflects_edit(s, [e0, e1])", ["pre: 0 <= s <= 3 and 0 <= e0 <= 2 and 0 <= e1 <= 2"], "regenerating the defaults after editing a species reflects the edit", "s: int, e0: int, e1: int", timeout=240)
+    add("own_buffers", "c13-accessors-one-system", "writes_stay_in_one_system(kind, how, s, c)", ["pre: 0 <= kind <= 1 and 0 <= how <= 3 and 0 <= s <= 3 and 0 <= c <= 3"],
+        "a per-entry write reaches exactly one entry of exactly ONE system: a second system built from the first one's state / chemostat arrays (constructor, setters, numpy arrays of the internal dtype, copy()) owns its data - "
+        "set_state / set_chemostat on either leaves the other untouched (grid and graph, every species and cell)", "kind: int, how: int, s: int, c: int",
+        viol="two systems share one state / chemostat buffer: a per-entry write to one of them changes the other")
     add("regen_inplace", "c13-regenerate-inplace", "regenerate_after_inplace_edit(s, [e0, e1, e2], how, g)", ["pre: 0 <= s <= 3 and 0 <= e0 <= 2 and 0 <= e1 <= 2 and 0 <= e2 <= 2 and 0 <= how <= 2 and 0 <= g <= 1"],
         "regenerating the defaults after the species' per-environment dictionaries were edited IN PLACE ('default' changed / added / removed, an environment's entry removed) gives what fresh species objects "
         "holding the same dictionaries give, and generating the defaults leaves those dictionaries untouched (all 27 environment maps of 3 cells, grid and graph)", "s: int, e0: int, e1: int, e2: int, how: int, g: int", timeout=300,
